@@ -57,7 +57,7 @@ def gen_case(rng, min_len_only=False):
             t += rng.uniform(0.05, 0.5)
     if rng.random() < 0.4:
         x = x[::-1]
-    deg = rng.randint(0, 2 * mm)
+    deg = rng.randint(0, 2 * mm) if rng.random() < 0.7 else 2 * mm        # the highest degree the property promises, often
     coef = [Fraction(rng.randint(-8, 8), rng.choice([1, 2, 4])) for _ in range(deg + 1)]
     return n, m, [float(v) for v in x], coef, kind
 
